@@ -19,6 +19,7 @@ import SqlModel.Filters.Format
   their state (`count`, `_last_stmt`, `_last_func`, …) and the trees keep their caches, as in `FilterStack.run`
 * `serialize <sexp of one statement>` → `ok <hex text>`
 * `fmtstmt <opts|-> <count> <fuel> <sexp>` → the tail of `FilterStack.run` for one grouped statement
+* `fmt <opts|-> <fuel> <hex text>` → `ok <hex text>` = `sqlparse.format(text, **opts)` end to end, or `err <PyErr>`
 -/
 namespace Sql.Driver
 
